@@ -2,8 +2,9 @@
     Statements only; proofs in Proofs/Mesh_fp_sites.v.  Every number instance (no property of the arithmetic is used).
 
     RESULT.  [from_polygon] can panic at ONE site only: 41, the push(..).unwrap() of Polygon3D::get_closed_loop
-    (three textual occurrences, one site) -- or at 42 ([% 0] there) if the polygon RECORD carries an empty hole, which
-    no sequence of API calls produces ([C09_sites_api_*]: a closed Loop3D is never empty).  Everything downstream of
+    (three textual occurrences, one site) -- or at 42 ([% 0] there) if the polygon RECORD carries an empty hole, or at
+    21 (`ret_loop[min_ext_vertex_id]` in the attachment search of fix bcb072e) if its OUTLINE is empty, which no
+    sequence of API calls produces ([C09_sites_api_*]: a closed Loop3D is never empty).  Everything downstream of
     get_closed_loop -- Loop3D::close, the [len() - 2] capacity, the capped ear-clipping loop with its periodic
     sanitize, is_diagonal, the ear test, push, constrain, remove, mark_neighbourhouds -- is panic free: sites 10, 21,
     22, 25, 60, 62, 63, 64, 92, 93, 95, 96 are UNREACHABLE from from_polygon (and 23, 24 no longer exist: fixes
@@ -45,9 +46,10 @@ Theorem C09_sites_fp_loop_no_panic : forall (K : Type) (NK : Num K) (P : Poly K)
   1 <= llen L /\ (llen L = 1 -> lclosed L = false) -> fp_loop P fuel count anchor L t <> Panic s.
 Proof. exact (fun K NK => @fp_loop_no_panic K NK). Qed.
 
-(** ** get_closed_loop: 41, or 42 with an empty hole; never 21 *)
+(** ** get_closed_loop: 41, or 42 with an empty hole, or 21 with an empty outline *)
 Theorem C09_sites_get_closed_loop : forall (K : Type) (NK : Num K) (P : Poly K) (s : N),
-  poly_get_closed_loop P = Panic s -> s = 41%N \/ (s = 42%N /\ exists h, In h (pinner P) /\ llen h = 0).
+  poly_get_closed_loop P = Panic s ->
+  s = 41%N \/ (s = 42%N /\ exists h, In h (pinner P) /\ llen h = 0) \/ (s = 21%N /\ llen (pouter P) = 0).
 Proof. exact (fun K NK => @closed_loop_panic K NK). Qed.
 
 (** ** from_polygon *)
@@ -55,10 +57,11 @@ Theorem C09_sites_from_polygon_origin : forall (K : Type) (NK : Num K) (P : Poly
   from_polygon P = Panic s -> poly_get_closed_loop P = Panic s.
 Proof. exact (fun K NK => @from_polygon_panic_origin K NK). Qed.
 Theorem C09_sites_from_polygon : forall (K : Type) (NK : Num K) (P : Poly K) (s : N),
-  from_polygon P = Panic s -> s = 41%N \/ (s = 42%N /\ exists h, In h (pinner P) /\ llen h = 0).
+  from_polygon P = Panic s ->
+  s = 41%N \/ (s = 42%N /\ exists h, In h (pinner P) /\ llen h = 0) \/ (s = 21%N /\ llen (pouter P) = 0).
 Proof. exact (fun K NK => @from_polygon_panic_sites K NK). Qed.
 Theorem C09_sites_from_polygon_41 : forall (K : Type) (NK : Num K) (P : Poly K) (s : N),
-  (forall h, In h (pinner P) -> llen h <> 0) -> from_polygon P = Panic s -> s = 41%N.
+  llen (pouter P) <> 0 -> (forall h, In h (pinner P) -> llen h <> 0) -> from_polygon P = Panic s -> s = 41%N.
 Proof. exact (fun K NK => @from_polygon_panic_41 K NK). Qed.
 Theorem C09_sites_from_polygon_no_holes : forall (K : Type) (NK : Num K) (P : Poly K),
   pinner P = [] -> forall s, from_polygon P <> Panic s.
@@ -80,16 +83,17 @@ Theorem C09_sites_mesh_polygon_origin : forall (K : Type) (NK : Num K) (fuel : n
 Proof. exact (fun K NK => @mesh_polygon_panic_origin K NK). Qed.
 Theorem C09_sites_mesh_polygon : forall (K : Type) (NK : Num K) (fuel : nat) (P : Poly K) (a m : K) (s : N),
   mesh_polygon fuel P a m = Panic s ->
-  s = 41%N \/ (s = 42%N /\ exists h, In h (pinner P) /\ llen h = 0) \/ in_sites sites_refine_wf s = true.
+  s = 41%N \/ (s = 42%N /\ exists h, In h (pinner P) /\ llen h = 0) \/ (s = 21%N /\ llen (pouter P) = 0) \/ in_sites sites_refine_wf s = true.
 Proof. exact (fun K NK => @mesh_polygon_panic_sites K NK). Qed.
 Theorem C09_sites_mesh_polygon_41 : forall (K : Type) (NK : Num K) (fuel : nat) (P : Poly K) (a m : K) (s : N),
-  (forall h, In h (pinner P) -> llen h <> 0) -> mesh_polygon fuel P a m = Panic s -> s = 41%N \/ in_sites sites_refine_wf s = true.
+  llen (pouter P) <> 0 -> (forall h, In h (pinner P) -> llen h <> 0) -> mesh_polygon fuel P a m = Panic s -> s = 41%N \/ in_sites sites_refine_wf s = true.
 Proof. exact (fun K NK => @mesh_polygon_panic_41 K NK). Qed.
 Theorem C09_sites_mesh_polygon_no_holes : forall (K : Type) (NK : Num K) (fuel : nat) (P : Poly K) (a m : K) (s : N),
   pinner P = [] -> mesh_polygon fuel P a m = Panic s -> in_sites sites_refine_wf s = true.
 Proof. exact (fun K NK => @mesh_polygon_no_holes_sites K NK). Qed.
 
-(** ** polygons built through the API: a closed Loop3D is never empty, hence no hole is empty and 42 is unreachable *)
+(** ** polygons built through the API: a closed Loop3D is never empty, hence neither the outline nor a hole is empty and
+    42 and 21 are unreachable *)
 Theorem C09_sites_api_closed_loop_nonempty : forall (K : Type) (NK : Num K) (ops : list (lop K)),
   let L := fst (loop_run loop_new ops) in lclosed L = true -> llen L <> 0.
 Proof. intros K NK ops. exact (run_closed_nonempty ops loop_new new_closed_nonempty). Qed.
@@ -97,12 +101,15 @@ Theorem C09_sites_api_holes_nonempty : forall (K : Type) (NK : Num K) (outer : L
   poly_new outer = Ok P -> (forall h, In h hs -> exists ops, h = fst (loop_run loop_new ops)) ->
   forall h, In h (pinner (fst (poly_run P hs))) -> llen h <> 0.
 Proof. exact (fun K NK => @api_holes_nonempty K NK). Qed.
-Theorem C09_sites_api_from_polygon : forall (K : Type) (NK : Num K) (outer : Loop K) (P : Poly K) (hs : list (Loop K)) (s : N),
-  poly_new outer = Ok P -> (forall h, In h hs -> exists ops, h = fst (loop_run loop_new ops)) ->
+Theorem C09_sites_api_outer_nonempty : forall (K : Type) (NK : Num K) (ops0 : list (lop K)) (P : Poly K) (hs : list (Loop K)),
+  poly_new (fst (loop_run loop_new ops0)) = Ok P -> llen (pouter (fst (poly_run P hs))) <> 0.
+Proof. exact (fun K NK => @api_outer_nonempty K NK). Qed.
+Theorem C09_sites_api_from_polygon : forall (K : Type) (NK : Num K) (ops0 : list (lop K)) (P : Poly K) (hs : list (Loop K)) (s : N),
+  poly_new (fst (loop_run loop_new ops0)) = Ok P -> (forall h, In h hs -> exists ops, h = fst (loop_run loop_new ops)) ->
   from_polygon (fst (poly_run P hs)) = Panic s -> s = 41%N.
 Proof. exact (fun K NK => @api_from_polygon_panic_41 K NK). Qed.
-Theorem C09_sites_api_mesh_polygon : forall (K : Type) (NK : Num K) (outer : Loop K) (P : Poly K) (hs : list (Loop K)) (fuel : nat) (a m : K) (s : N),
-  poly_new outer = Ok P -> (forall h, In h hs -> exists ops, h = fst (loop_run loop_new ops)) ->
+Theorem C09_sites_api_mesh_polygon : forall (K : Type) (NK : Num K) (ops0 : list (lop K)) (P : Poly K) (hs : list (Loop K)) (fuel : nat) (a m : K) (s : N),
+  poly_new (fst (loop_run loop_new ops0)) = Ok P -> (forall h, In h hs -> exists ops, h = fst (loop_run loop_new ops)) ->
   mesh_polygon fuel (fst (poly_run P hs)) a m = Panic s -> s = 41%N \/ in_sites sites_refine_wf s = true.
 Proof. exact (fun K NK => @api_mesh_polygon_panic K NK). Qed.
 
@@ -118,8 +125,13 @@ Theorem C09_sites_42_needs_empty_hole :
   exists P : Poly float, from_polygon P = Panic 42%N /\ exists h, In h (pinner P) /\ llen h = 0.
 Proof. exists w42_poly. split; [exact w42_panics | eexists; split; [left; reflexivity | reflexivity]]. Qed.
 
+(** ... and so is "the outline is not empty" (fix bcb072e; again a record that the API cannot produce) *)
+Theorem C09_sites_21_needs_empty_outline :
+  exists P : Poly float, from_polygon P = Panic 21%N /\ llen (pouter P) = 0 /\ (forall h, In h (pinner P) -> llen h <> 0) /\ length (pinner P) = 2.
+Proof. exists w21_poly. exact w21_panics. Qed.
+
 (** non-vacuity: a hole-free polygon and a polygon with one non-empty hole on which from_polygon returns Ok *)
 Example C09_sites_nonvacuous :
   (pinner w4_poly = [] /\ exists M, from_polygon w4_poly = Ok M) /\
-  ((forall h, In h (pinner w5_poly) -> llen h <> 0) /\ length (pinner w5_poly) = 1 /\ exists M, from_polygon w5_poly = Ok M).
+  (llen (pouter w5_poly) <> 0 /\ (forall h, In h (pinner w5_poly) -> llen h <> 0) /\ length (pinner w5_poly) = 1 /\ exists M, from_polygon w5_poly = Ok M).
 Proof. exact w_sites_nonvacuous. Qed.
